@@ -380,4 +380,151 @@ theorem weighted_length (c : WCfg) :
     have : ¬ s ≤ c.n := by omega
     simp [wLen, wEffective, h, this]
 
+/-! ## Statements that do not assume success
+
+The theorems above take `cbGlobal … = .ok G`, `(semiIter …).out = .ok out`, `popLen … = some …` and content
+contracts on intermediate results (`hfinal`, `hused`, `hv`) as hypotheses.  The theorems below start from what
+the constructors accept and from torch's contracts for the answers on the TAPE only (`CBTapeOk`, `TapePermsOk`,
+`MultinomialOk`, `SemiTapeOk`, all in `Model/C12Spec.lean`) and prove that the iterators succeed. -/
+
+/-- **C13, class-balanced epoch, unconditionally**: for a dataset whose labels are the class ids `0 … C-1`
+    (`CBLabelsOk`), accepted by the constructor (`cbCtor`), every `samples_per_class`, and a tape that answers the
+    `randperm` requests in torch's shapes (`CBTapeOk`) with permutations (`TapePermsOk`; both vacuous without
+    shuffle): `__iter__` reaches the rank split without raising, the global draw has `C·spc` entries, holds
+    exactly `samples_per_class` indices of every class, reuses the samples of a class as evenly as possible
+    (multiplicities differ by at most one) and contains only valid dataset indices. -/
+theorem balanced_epoch_total (c : CBCfg) (tape : Tape) (hctor : cbCtor c = .ok ()) (hlab : CBLabelsOk c)
+    (ht : CBTapeOk c tape) (hperm : c.shuffle = true → TapePermsOk tape) :
+    ∃ G, cbGlobal c tape = .ok G ∧ G.g.length = cbNumClasses c * cbSpc c ∧
+      (∀ v, v < cbNumClasses c → classCount c.classes v G.g = cbSpc c) ∧
+      (∀ v a b, c.classes[a]? = some (Int.ofNat v) → c.classes[b]? = some (Int.ofNat v) →
+        G.g.count a ≤ G.g.count b + 1) ∧
+      (∀ x, x ∈ G.g → x < c.classes.length) := by
+  obtain ⟨G, hG, hc⟩ := c12x_cbGlobal_total c tape (c12x_cb_pools_pos c hctor hlab) ht
+  obtain ⟨hfinal, hused⟩ := hc hperm
+  obtain ⟨h1, h2⟩ := balanced_exact_counts c tape G hG hfinal
+  exact ⟨G, hG, h1, h2, fun v a b ha hb => balanced_even_reuse c tape G hG hfinal hused v a b ha hb,
+    (balanced_indices_valid c tape G hG).1⟩
+
+/-- the hypotheses of `balanced_epoch_total` are satisfiable: the recorded tape of the example above -/
+example : TapePermsOk [[1, 0], [0, 1], [2, 0, 1], [1, 2, 0], [7, 0, 3, 2, 6, 1, 5, 4]] := by
+  intro p hp
+  simp at hp
+  rcases hp with rfl | rfl | rfl | rfl | rfl <;> unfold RandpermOk <;> decide
+
+/-- **C13, "one epoch contains, over all ranks together, exactly samples_per_class indices of every class"** —
+    on what the ranks actually yield (the round-robin merge of the rank streams of `cbIter`), not on the draw
+    before the split.  Same domain as `balanced_epoch_total`.  The ranks together yield `len·W` valid indices;
+    every class occurs at most `samples_per_class` times and fewer than `W` of its occurrences are lost to the
+    tail cut `[:len(self)]`; exactly `samples_per_class` times when the world size divides `C·spc`. -/
+theorem balanced_ranks_class_counts (c : CBCfg) (epoch : Nat) (tape : Tape) (hctor : cbCtor c = .ok ())
+    (hlab : CBLabelsOk c) (ht : CBTapeOk c tape) (hperm : c.shuffle = true → TapePermsOk tape) :
+    let W := wsOf c.wsArg
+    (C12.cbRanksTogether c epoch tape).length = cbLen c * W ∧
+    (∀ x, x ∈ C12.cbRanksTogether c epoch tape → x < c.classes.length) ∧
+    ∀ v, v < cbNumClasses c →
+      classCount c.classes v (C12.cbRanksTogether c epoch tape) ≤ cbSpc c ∧
+      cbSpc c < classCount c.classes v (C12.cbRanksTogether c epoch tape) + W ∧
+      ((cbNumClasses c * cbSpc c) % W = 0 →
+        classCount c.classes v (C12.cbRanksTogether c epoch tape) = cbSpc c) := by
+  intro W
+  obtain ⟨G, hG, hlen, hcnt, _, hval⟩ := balanced_epoch_total c tape hctor hlab ht hperm
+  obtain ⟨G', hG', _, _, htog, hle, hlt, hmod⟩ := C12.balanced_ranks_split c epoch tape hctor hlab ht
+  have hGG : G' = G := by
+    rw [hG] at hG'
+    injection hG' with h
+    exact h.symm
+  subst hGG
+  refine ⟨?_, ?_, ?_⟩
+  · rw [htog, List.length_take, hlen]
+    exact Nat.min_eq_left hle
+  · intro x hx
+    rw [htog] at hx
+    exact hval x (List.mem_of_mem_take hx)
+  · intro v hv
+    have hsplit : classCount c.classes v G'.g =
+        classCount c.classes v (G'.g.take (cbLen c * wsOf c.wsArg)) +
+        classCount c.classes v (G'.g.drop (cbLen c * wsOf c.wsArg)) := by
+      unfold classCount
+      rw [← List.countP_append, List.take_append_drop]
+    have hdrop : classCount c.classes v (G'.g.drop (cbLen c * wsOf c.wsArg)) ≤
+        (G'.g.drop (cbLen c * wsOf c.wsArg)).length := List.countP_le_length
+    rw [List.length_drop, hlen] at hdrop
+    have hc := hcnt v hv
+    rw [hsplit] at hc
+    refine ⟨?_, ?_, ?_⟩
+    · rw [htog]; omega
+    · rw [htog]
+      show cbSpc c < _ + wsOf c.wsArg
+      have hlt' : cbNumClasses c * cbSpc c < cbLen c * wsOf c.wsArg + wsOf c.wsArg := hlt
+      omega
+    · intro h0
+      rw [hmod h0]
+      exact hcnt v hv
+
+example : C12.cbRanksTogether ⟨[0, 1, 1, 1, 0], 1, true, some 3, 0, none, some 2⟩ 0
+      [[1, 0], [0, 1], [2, 0, 1], [5, 0, 3, 2, 1, 4]] = [2, 4, 3, 0, 0, 1] ∧
+    classCount [0, 1, 1, 1, 0] 0 [2, 4, 3, 0, 0, 1] = 3 ∧ classCount [0, 1, 1, 1, 0] 1 [2, 4, 3, 0, 0, 1] = 3 := by
+  refine ⟨rfl, ?_, ?_⟩ <;> decide
+
+/-- **C13, weighted sampler, from the contract of the draw on the tape**: the constructor accepted
+    (`len(dataset) == len(weights)`), `size ≤ n`, and the tape starts with an answer `d` that keeps torch's
+    contract for `multinomial(weights, size, replacement=False)` (`MultinomialOk`: `size` entries, each a position
+    of the weight vector, no position twice).  Then every index of every rank stream is a valid dataset index, no
+    rank repeats an index, different ranks share no index, and what the ranks yield together has no repetition. -/
+theorem weighted_epoch_from_contract (c : WCfg) (epoch : Nat) (d : List Nat) (rest : Tape)
+    (hctor : wCtor c = .ok ()) (hsz : ∀ s, c.size = some s → s ≤ c.n)
+    (hm : MultinomialOk c.nWeights (wSize c) d) :
+    let W := wsOf c.wsArg
+    let stream := fun r => C12.okOr (wIter { c with rankArg := some r } epoch (d :: rest)).out
+    (∀ r x, x ∈ stream r → x < c.n) ∧
+    (∀ r, r < W → (stream r).Nodup) ∧
+    (∀ r1 r2 x, r1 < W → r2 < W → r1 ≠ r2 → x ∈ stream r1 → ¬ x ∈ stream r2) ∧
+    (C12.wRanksTogether c epoch (d :: rest)).Nodup ∧
+    (∀ x, x ∈ C12.wRanksTogether c epoch (d :: rest) → x < c.n) := by
+  intro W stream
+  have hn : c.n = c.nWeights := by
+    unfold wCtor at hctor
+    by_cases h : c.n = c.nWeights
+    · exact h
+    · simp [h] at hctor
+  have he := c12x_wEffective_ok c hsz
+  have hp : popLen (wSize c) (d :: rest) = some (d, rest) := c12x_popLen_cons hm.shape
+  have hv : ∀ x, x ∈ d → x < c.n := fun x hx => by rw [hn]; exact hm.range x hx
+  obtain ⟨h1, h2⟩ := weighted_no_repeat c epoch (wSize c) d rest (d :: rest) he hp hm.distinct
+  obtain ⟨_, _, htog, _, _, _⟩ := C12.weighted_ranks_total c epoch d rest hsz hm.shape
+  refine ⟨?_, h1, h2, ?_, ?_⟩
+  · intro r x hx
+    exact weighted_indices_valid c epoch (wSize c) d rest (d :: rest) he hp hv r x hx
+  · rw [htog]
+    exact (List.take_sublist _ _).nodup hm.distinct
+  · intro x hx
+    rw [htog] at hx
+    exact hv x (List.mem_of_mem_take hx)
+
+example : MultinomialOk 6 5 [2, 0, 3, 1, 5] ∧ wCtor ⟨6, 6, some 5, 0, none, some 2⟩ = .ok () :=
+  ⟨⟨rfl, by decide, by decide⟩, rfl⟩
+
+/-- **C13, totality of the semi-supervised sampler**: the constructor accepted (`semiCtor`: chunk sizes ≥ 1, a
+    valid length mode, both pools non-empty) and the tape holds the two seed scalars followed by `randperm` answers
+    of the sizes the loop asks for, in the order it asks (`SemiTapeOk`, sizes given by `semiSchedule`; entries in
+    range).  Then `__iter__` raises nothing (no `IndexError`, no endless generator) and yields exactly
+    `len(sampler)` indices in strict alternation `num_labeled` labeled / `num_unlabeled` unlabeled. -/
+theorem semi_iter_total (c : SemiCfg) (epoch : Nat) (tape : Tape) (hctor : semiCtor c = .ok ())
+    (ht : SemiTapeOk c tape) :
+    ∃ out, (semiIter c epoch tape).out = .ok out ∧ out.length = semiLen c ∧
+      ∀ i x, out[i]? = some x →
+        ∃ cl, c.classes[x]? = some cl ∧ (cl ≠ -1 ↔ i % (c.L + c.U) < c.L) := by
+  obtain ⟨_, _, _, hl, hu⟩ := c12x_semiCtor_ok hctor
+  obtain ⟨out, hout⟩ := c12x_semiIter_total c epoch tape hl hu ht
+  obtain ⟨h1, h2⟩ := semi_alternation c epoch tape out hout
+  exact ⟨out, hout, h1, h2⟩
+
+/-- the hypotheses of `semi_iter_total` are satisfiable: the recorded run of the example above
+    (pools of 4 labeled / 2 unlabeled samples, requests of sizes 4, 2, 2) -/
+example : semiCtor ⟨[0, -1, 1, -1, 2, 3], 1, 1, none, none, 9243, .labeled⟩ = .ok () ∧
+    SemiTapeOk ⟨[0, -1, 1, -1, 2, 3], 1, 1, none, none, 9243, .labeled⟩
+      [[5], [7], [3, 0, 1, 2], [1, 0], [0, 1]] :=
+  ⟨rfl, 5, 7, [[3, 0, 1, 2], [1, 0], [0, 1]], [], rfl, by decide, by decide⟩
+
 end KDVerif.C13
